@@ -571,6 +571,7 @@ let do_mgr id ins outs =
     let isn = Array.of_list (split_on ';' isnaps) in
     let captured = Hashtbl.create 8 in
     let problems = ref [] in
+    let specfails = ref [] in
     let snap_of en s =
       (match s.active with
        | None -> "none"
@@ -599,6 +600,17 @@ let do_mgr id ins outs =
           else failwith ("mgr op " ^ o) in
         let ((en', s'), cap) = mstep cfg en s lbl in
         (match lbl, cap with QStart q, Some i -> Hashtbl.replace captured (int_of_z q) i | _ -> ());
+        (* C08 on the implementation's own state: after an explicit election the active endpoint is the
+           first healthy candidate in preference order, or the first listed one when none is healthy *)
+        (if lbl = Elect && k < Array.length isn && isn.(k) <> "locked" && no_unreach en' then
+           let want = (match spec_best en' with BOk e | BFallback e -> Some (int_of_z e) | _ -> None) in
+           let got = (try Scanf.sscanf isn.(k) "ep%d/" (fun d -> Some d) with _ -> None) in
+           match want, got with
+           | Some w, Some g when w <> g ->
+             specfails := Printf.sprintf "after op %d (election): active endpoint is ep%d, the first healthy candidate in preference order (or the first listed when none is healthy) is ep%d" k g w :: !specfails
+           | Some w, None ->
+             specfails := Printf.sprintf "after op %d (election): no active endpoint (%s), expected ep%d" k isn.(k) w :: !specfails
+           | _ -> ());
         (if k < Array.length isn && isn.(k) <> "locked" then
            let ms = snap_of en' s' in
            if ms <> isn.(k) then problems := Printf.sprintf "after op %d (%s): state impl=%s model=%s" k o isn.(k) ms :: !problems);
@@ -611,6 +623,7 @@ let do_mgr id ins outs =
     let has_sub s sub = (let n = String.length sub in let rec f i = i + n <= String.length s && (String.sub s i n = sub || f (i+1)) in f 0) in
     let tag = Printf.sprintf "e%d/c%d%s" (min !nelect 3) (min !nchange 3) (if initid = 0 then "/boot" else "/init") in
     if has_sub ilog "STUCK" then verdict "mgr" id "spec:C09" tag ("deadlock watchdog: " ^ ilog)
+    else if !specfails <> [] then verdict "mgr" id "spec:C08" tag (String.concat "; " (List.rev !specfails) ^ " ;; log " ^ ilog)
     else if ilog <> mlog then verdict "mgr" id "diff" tag (Printf.sprintf "log impl=%s model=%s" ilog mlog)
     else if !problems <> [] then verdict "mgr" id "diff" tag (String.concat "; " (List.rev !problems))
     else verdict "mgr" id "ok" tag ""
